@@ -163,6 +163,8 @@ pub struct GenCfg {
     /// probability (percent) that the first version of a client has a non-nil parent
     pub nonnil_base_pct: usize,
     pub big_payload_pct: usize,
+    /// big payloads of the sizes where HTTP frameworks put their default body limits (256 KiB, 1 MiB, 2 MiB) instead of 4 – 70 kB
+    pub mid_payloads: bool,
     pub final_walks: bool,
     pub reread_every: usize,
     pub snapwalk_after_write: bool,
@@ -178,6 +180,7 @@ impl Default for GenCfg {
             av_latest_pct: 65,
             nonnil_base_pct: 40,
             big_payload_pct: 3,
+            mid_payloads: false,
             final_walks: true,
             reread_every: 0,
             snapwalk_after_write: false,
@@ -207,8 +210,8 @@ pub fn gen_idref(r: &mut Rng, for_snapshot: bool) -> IdRef {
 
 pub fn gen_payload(r: &mut Rng, g: &GenCfg) -> PayloadSpec {
     if r.chance(g.big_payload_pct, 100) {
-        let lens = [4095usize, 4096, 4097, 65535, 65536, 70000];
-        PayloadSpec { kind: 1 + r.below(7) as u8, len: *r.pick(&lens), seed: r.next() }
+        let lens = if g.mid_payloads { [262_143usize, 262_144, 262_145, 300_001, 1_048_577, 2_097_153] } else { [4095usize, 4096, 4097, 65535, 65536, 70000] };
+        PayloadSpec { kind: if g.mid_payloads { 0 } else { 1 + r.below(7) as u8 }, len: *r.pick(&lens), seed: r.next() }
     } else {
         PayloadSpec::small(r)
     }
